@@ -60,6 +60,11 @@ NASTY = [
     "start :: fn do\n  B :: blob { a: int, b: B, a: float }\n  E :: enum\n    A\n    B\n    A\n  end\nend\n",
     "start :: fn do\n  f :: fn do\n    if true do\n      B :: blob { x: int,\n x: int }\n    end\n  end\nend\n",
     "B :: blob { a: int, a: int, a: int }\nE :: enum A, A, A end\nstart :: fn do end\n",
+    # Context::prev in the loop arm (fixed 6634c32: overflow-checked builds panicked in comments_since_last_statement)
+    "start :: fn do\n  if true do loop do break end end\nend\n",
+    "start :: fn do\n  if true do loop do break end else end\n  do loop true f' 1,\n end\nend\n",
+    "start :: fn do\n  loop loop do break end end\n",
+    "// c\nloop",
 ]
 
 _model = {}
@@ -124,12 +129,12 @@ def _unty(x):
     return x
 
 
-def pt_real(srcs):
+def pt_real(srcs, debug=False):
     """one line per source: 'OK <module sexp>' | 'ERR <distinct syntax-error spans>' | 'SKIP ...' (an error that is
     not a syntax error, e.g. a missing import) | the harness line (PANIC/TIMEOUT)"""
     lines = [noise_gen.case_line({"/main.sy": s}, flags="nostd") for s in srcs]
     out = []
-    for o in vlib.harness("tree", lines, timeout_s=30):
+    for o in vlib.harness("tree", lines, timeout_s=30, debug=debug):
         if o.startswith("TREE"):
             txt = re.sub(r"@\d+:\d+:\d+", "", vlib.unhex(o.split(" ")[1]).decode()).strip()
             mods = [m for m in _unty(sylt_gen.sexp_parse("(" + txt + ")")) if m[1] == "file:/main.sy"]
@@ -204,6 +209,14 @@ def parser_total_tie(ctx, cases):
         why = pt_disagree(a, b)
         if why:
             bad.append((s, why))
+    if ctx.tier == "thorough" and vlib.build_harness(debug=True)[0]:
+        # the parser alone in the overflow-checked build (e.g. `curr - last_statement`), against the same model answers
+        step = max(1, len(srcs) // 60000)
+        sub = srcs[::step]
+        for s, a, b in zip(sub, pt_real(sub, debug=True), pt_model(sub)):
+            why = pt_disagree(a, b)
+            if why:
+                bad.append((s, "debug build: " + why))
     ctx.c07_pt_bad = bad
     return {"name": "parser_total", "ok": not bad, "evaluations": len(srcs), "outcomes": dict(outcome),
             "mismatches": [{"class": "parser_total", "files": {"/main.sy": s[:2000]}, "what": why} for s, why in bad[:5]],
@@ -212,16 +225,32 @@ def parser_total_tie(ctx, cases):
                     "same distinct syntax-error positions, same tree; the model must never answer FUEL or MODELPANIC"}
 
 
+def debug_sample(cases, per_class=8000):
+    """indices into cases: all of the small classes (nasty), per_class evenly spaced members of the others"""
+    by = collections.OrderedDict()
+    for i, c in enumerate(cases):
+        by.setdefault(c[0], []).append(i)
+    idx = []
+    for cls, l in by.items():
+        if len(l) <= per_class:
+            idx += l
+        else:
+            step = len(l) / float(per_class)
+            idx += [l[int(k * step)] for k in range(per_class)]
+    return sorted(set(idx))
+
+
 def tie(ctx):
     cases = gen_cases(ctx)
     res = run(ctx, cases)
     bad = [(i, classify(x)) for i, x in enumerate(res) if classify(x)]
     if ctx.tier == "thorough":
+        # the overflow-checked build: every hand-written input and an evenly spaced sample of every class of the stream
         ok, out = vlib.build_harness(debug=True)
         if ok:
-            sub = cases[: 40000]
-            res2 = run(ctx, sub, debug=True)
-            bad += [(i, "debug build: " + classify(x)) for i, x in enumerate(res2) if classify(x)]
+            idx = debug_sample(cases)
+            res2 = run(ctx, [cases[i] for i in idx], debug=True)
+            bad += [(i, "debug build: " + classify(x)) for i, x in zip(idx, res2) if classify(x)]
     dist = collections.Counter(c[0] for c in cases)
     outcome = collections.Counter(x.split(" ")[0] for x in res)
     kinds = collections.Counter()
